@@ -54,13 +54,16 @@ static void save_state(int binary, std::string &text, std::vector<unsigned char>
   if (binary) { verif_assert(px->colvars->write_state_buffer(buf) == COLVARS_OK, "save.ok"); }
   else { std::ostringstream os; px->colvars->write_state(os); text = os.str(); verif_assert(bool(os), "save.ok"); }
 }
+static bool LAST_OUTSIDE = false;      // the last step is an excursion beyond the upper boundary of the grid
 static void scenario(const char *conf, int N, int nK, int const *Ks, bool binned, cvm::real xlo, cvm::real xhi) {
   int K = Ks[verif_choice("stop_step", nK)];
   int binary = verif_choice("binary", 2);
   traj T;
   for (int s = 0; s <= N; s++) {
     T.x[s] = verif_sym_double(XS[s]);
-    if (binned) {
+    if (binned && LAST_OUTSIDE && s == N) {
+      verif_assume((T.x[s] > 3.0625) & (T.x[s] < 3.4375));
+    } else if (binned) {
       // grid biases: the bin visited at every step is chosen up front (bins [1.5, 2) and [2, 2.5) of a grid starting at 1 with width 0.5)
       int b = verif_choice(YS[s], 2);
       verif_assume((T.x[s] > 1.5 + 0.5 * b) & (T.x[s] < 2.0 + 0.5 * b));
@@ -134,5 +137,12 @@ static const char *CONF_M =
   "colvar {\n name d\n width 0.5\n lowerBoundary 1.0\n upperBoundary 3.0\n distance {\n group1 { atomNumbers 1 }\n group2 { atomNumbers 2 }\n }\n}\n"
   "metadynamics {\n name m\n colvars d\n hillWeight 0.1\n hillWidth 2.0\n newHillFrequency 1\n useGrids off\n}\n";
 extern "C" void h_c03_meta() { static const int Ks[3] = {0, 1, 2}; scenario(CONF_M, 2, 3, Ks, false, 1.25, 2.75); }
+
+static const char *CONF_MG =
+  "units real\ncolvarsTrajFrequency 0\n"
+  "colvar {\n name d\n width 0.5\n lowerBoundary 1.0\n upperBoundary 3.0\n distance {\n group1 { atomNumbers 1 }\n group2 { atomNumbers 2 }\n }\n}\n"
+  "metadynamics {\n name m\n colvars d\n hillWeight 0.1\n hillWidth 2.0\n newHillFrequency 1\n}\n";
+// metadynamics with grids: hills near the boundary are kept for the analytic evaluation outside the grid; the last step leaves the grid
+extern "C" void h_c03_meta_offgrid() { static const int Ks[2] = {1, 2}; LAST_OUTSIDE = true; scenario(CONF_MG, 3, 2, Ks, true, 1.5, 2.5); LAST_OUTSIDE = false; }
 
 extern "C" void h_c03_setup() { px = nullptr; }
